@@ -18,5 +18,6 @@ fn main() {
         ("crash", rates_mode::crash),
         ("crashchild", rates_mode::crashchild),
         ("arith", rates_mode::arith),
+        ("histf", rates_mode::histf),
     ]);
 }
